@@ -300,6 +300,20 @@ func lookupMethod(i *interpreter, typ types.Type, meth *types.Func) *ssa.Functio
 	return f
 }
 
+// permuteHere: map iteration orders are explored only for range statements in the code under test (not in
+// libraries, whose order-independence is not the subject, and not in harness files).
+func (i *interpreter) permuteHere(fr *frame, instr *ssa.Range) bool {
+	if !i.path.mapOrder || !i.eng.inRepo(fr.fn) {
+		return false
+	}
+	pos := instr.Pos()
+	if !pos.IsValid() {
+		pos = fr.fn.Pos()
+	}
+	file := i.prog.Fset.Position(pos).Filename
+	return !strings.Contains(file, "zz_verif") && !strings.Contains(file, "/internal/verif")
+}
+
 func nilDeref() targetPanic {
 	return targetPanic{"runtime error: invalid memory address or nil pointer dereference"}
 }
@@ -480,7 +494,7 @@ func visitInstr(fr *frame, instr ssa.Instruction) continuation {
 		fr.set(instr, newMap())
 
 	case *ssa.Range:
-		fr.set(instr, rangeIter(i, fr.get(instr.X), instr.X.Type()))
+		fr.set(instr, rangeIter(i, fr.get(instr.X), instr.X.Type(), i.permuteHere(fr, instr)))
 
 	case *ssa.Next:
 		fr.set(instr, fr.get(instr.Iter).(iter).next())
